@@ -33,6 +33,10 @@ pub enum Op {
     LowerBoundRev { r: u16, fam: u8, t: u32 },
     Debug,
     Rebuild(Ctor),
+    /// rebuild from items the tree itself handed out (`ask(i,i)`: leaves that range modifications have
+    /// reached, so their internal bookkeeping is not that of a freshly made item).
+    /// mode 0 from_slice, 1 from_iter, 2 new(n, ask(pos,pos))
+    RebuildFromLeaves { mode: u8, pos: u16 },
 }
 
 #[derive(Clone, Debug, Hash, Serialize, Deserialize, PartialEq)]
@@ -233,6 +237,21 @@ pub fn run<A: Alg>(case: &Case, focus: Focus) -> CaseResult {
                     );
                 }
             }
+            Op::RebuildFromLeaves { mode, pos } => {
+                let leaves: Vec<A::Item> = (0..n).map(|i| tree.ask(i, i)).collect();
+                match mode % 3 {
+                    0 => tree = Segtree::from_slice(&leaves),
+                    1 => tree = Segtree::from_iter(leaves.into_iter()),
+                    _ => {
+                        let p = pick(*pos, n);
+                        tree = Segtree::new(n, leaves[p].clone());
+                        let e = model[p].clone();
+                        model = vec![e; n];
+                    }
+                }
+                partial_modify = None;
+                st.label("rebuild-from-handed-out-items");
+            }
             Op::Rebuild(c) => {
                 let (t, m) = build::<A>(c, case.nonneg);
                 tree = t;
@@ -338,6 +357,7 @@ pub fn op() -> impl Strategy<Value = Op> {
         20 => (idx(), any::<u8>(), any::<u32>()).prop_map(|(r, fam, t)| Op::LowerBoundRev { r, fam, t }),
         2 => Just(Op::Debug),
         2 => ctor().prop_map(Op::Rebuild),
+        3 => (0u8..3, idx()).prop_map(|(mode, pos)| Op::RebuildFromLeaves { mode, pos }),
     ]
 }
 
@@ -475,6 +495,8 @@ pub fn decode(data: &[u8]) -> Option<Case> {
             _ => {
                 if b[1] & 3 == 0 {
                     Op::Debug
+                } else if b[1] & 3 == 1 {
+                    Op::RebuildFromLeaves { mode: b[3], pos: a }
                 } else {
                     Op::LowerBoundRev { r: a, fam: b[3], t: v }
                 }
